@@ -497,6 +497,16 @@ def check_pa_lookup(m, f, rule):
         return st
 
     keep = {L.ref for L in rh_loads} | {i.ref for i in f.all_insts() if i.op == 'phi' and i.ty.endswith('*')}
+    # ... and merges that carry a checked index instead of a bucket pointer (the lookup converts once at the end)
+    changed = True
+    carries = set(kind)
+    while changed:
+        changed = False
+        for i in f.all_insts():
+            if i.op == 'phi' and i.ref not in carries and any(isinstance(o, str) and o in carries for o in i.o):
+                carries.add(i.ref)
+                changed = True
+    keep |= {r for r in carries if r not in kind}
     try:
         res = typestate.run(f, init, transfer, track=lambda r: r in keep, limit=150000)
     except typestate.Limit as e:
@@ -510,6 +520,7 @@ def check_pa_lookup(m, f, rule):
         idx = None
         if g is not None and g.op == 'getelementptr' and g.x.get('path') and 'idx' in g.x['path'][0]:
             idx = g.x['path'][0]['idx']
+            idx = ps.lookup(_k(idx)) if isinstance(idx, str) else idx
         pend = None
         # the table's state when the lookup was entered: the pending marker as first read on the path
         entry_loads = [L for L in rh_loads if all(f.dominates(L, M) for M in rh_loads)] or rh_loads
